@@ -39,9 +39,9 @@ enum { LOG_CAP = 1 << 20 };
 static int* g_log;                             // owner sequence (thread ids at acquire), written while holding the lock
 static size_t g_log_n;
 static std::atomic<int> g_owner(-1);           // -1: free (atomic only so that the monitor's own self-deadlock probe is race-free). Only touched while holding the real mutex (or by the single main thread at quiescence)
-static uint64_t g_acquisitions, g_handoffs, g_lock_errors_unowned_unlock, g_lock_errors_double_owner, g_self_deadlocks;
+static uint64_t g_acquisitions, g_handoffs, g_lock_errors_unowned_unlock, g_lock_errors_double_owner;
+static std::atomic<uint64_t> g_self_deadlocks;
 static int g_last_owner = -1;
-static bool g_single_threaded = false;       // set by the misuse section (main thread only)
 static std::atomic<PlatformSpecificMutex> g_last_mutex;
 
 static void inject_delay() {
@@ -54,9 +54,11 @@ static void inject_delay() {
 
 static void wrap_lock(PlatformSpecificMutex m) {
     inject_delay();
-    if (t_id == 0 && g_single_threaded && g_owner.load(std::memory_order_relaxed) == 0 && g_last_mutex.load(std::memory_order_relaxed) == m) {
+    // g_owner holds a thread's id only while that thread owns the mutex, and only that thread ever writes
+    // its own id: reading it without the lock (relaxed atomic) can only show "me" if I really hold it.
+    if (g_owner.load(std::memory_order_relaxed) == t_id && g_last_mutex.load(std::memory_order_relaxed) == m) {
         // the calling thread already owns the (non-recursive) mutex: the real call would self-deadlock.
-        // Only the main thread in the single-threaded misuse section can get here; record and repair.
+        // Record it, release on the thread's behalf and go on (no hang, no wall-clock verdict).
         g_self_deadlocks++;
         g_owner = -1;
         real_unlock(m);
@@ -77,7 +79,7 @@ static void wrap_unlock(PlatformSpecificMutex m) {
 static void install_wrapper() {
     real_lock = PlatformSpecificMutexLock; real_unlock = PlatformSpecificMutexUnlock;
     PlatformSpecificMutexLock = wrap_lock; PlatformSpecificMutexUnlock = wrap_unlock;
-    g_log_n = 0; g_owner = -1; g_last_owner = -1; g_acquisitions = g_handoffs = g_lock_errors_unowned_unlock = g_lock_errors_double_owner = g_self_deadlocks = 0;
+    g_log_n = 0; g_owner = -1; g_last_owner = -1; g_acquisitions = g_handoffs = g_lock_errors_unowned_unlock = g_lock_errors_double_owner = 0; g_self_deadlocks = 0;
 }
 static void remove_wrapper() { PlatformSpecificMutexLock = real_lock; PlatformSpecificMutexUnlock = real_unlock; }
 
@@ -123,8 +125,12 @@ static char* do_alloc(vf::Rng& r, int fam, size_t size, Worker& w) {
         default: w.by_kind[2]++; return (char*) ::operator new[](size, "c10_threads.cpp", (size_t) (200 + w.id));
         }
     default:
-        w.by_kind[4]++;
-        return r.chance(50) ? (char*) cpputest_malloc(size) : (char*) cpputest_malloc_location(size, "c10_threads.cpp", (size_t) (300 + w.id));
+        switch (r.below(4)) {
+        case 0: w.by_kind[4]++; return (char*) cpputest_malloc(size);
+        case 1: w.by_kind[4]++; return (char*) cpputest_malloc_location(size, "c10_threads.cpp", (size_t) (300 + w.id));
+        case 2: w.by_kind[6]++; return (char*) cpputest_realloc(nullptr, size);                         // realloc(NULL, n) is an allocation
+        default: { w.by_kind[7]++; char* p = (char*) cpputest_calloc(1, size); return p; }
+        }
     }
 }
 static void do_free(int fam, char* p, Worker& w) {
@@ -267,6 +273,7 @@ static void sec_concurrent(vf::Ctx& c) {
     unsigned seq1 = det->getCurrentAllocationNumber();
     if ((uint64_t) (seq1 - seq0) != allocs + reallocs) c.violation("sequence-counter-drift", "counter advanced by " + std::to_string(seq1 - seq0) + ", successful allocations+reallocations " + std::to_string(allocs + reallocs));
     if (g_lock_errors_unowned_unlock || g_lock_errors_double_owner) c.violation("lock-discipline", "unlock by non-owner: " + std::to_string(g_lock_errors_unowned_unlock) + ", acquire while owned: " + std::to_string(g_lock_errors_double_owner));
+    if (g_self_deadlocks.load()) c.violation("lock-reacquired-by-its-owner", std::to_string(g_self_deadlocks.load()) + " lock() calls came from the thread that already owned the non-recursive mutex (would self-deadlock; repaired by the monitor)");
     if (g_owner != -1) c.violation("lock-held-at-quiescence", "owner " + std::to_string(g_owner.load()) + " after all threads joined");
     // report (only when it fits the buffer without truncation: few held blocks)
     if (held <= 12) {
@@ -303,6 +310,7 @@ static void sec_concurrent(vf::Ctx& c) {
     c.count("thread_ops", (uint64_t) T * (uint64_t) ops);
     c.count("allocations", allocs); c.count("reallocations", reallocs); c.count("cross_thread_handoffs_of_blocks", received);
     c.count("null_results", nulls);
+    { uint64_t rn = 0, cal = 0; for (int i = 1; i <= T; i++) { rn += g_workers[i].by_kind[6]; cal += g_workers[i].by_kind[7]; } c.count("allocations_via_realloc_null", rn); c.count("allocations_via_calloc", cal); }
     c.count(std::string("runs_with_threads_") + std::to_string(T));
     uint64_t h = vf::fnv(g_log, sizeof(int) * (g_log_n < 64 ? g_log_n : 64));
     if (g_handoffs >= 100) { char b[40]; snprintf(b, sizeof b, "%016llx", (unsigned long long) h); c.nontrivial(b); }
@@ -361,7 +369,7 @@ static void sec_misuse(vf::Ctx& c) {
     {
         TestTestingFixture fx;
         install_wrapper();
-        t_id = 0; g_single_threaded = true;
+        t_id = 0;
         MemoryLeakWarningPlugin::turnOnThreadSafeNewDeleteOverloads();
         fx.setTestFunction(misuse_body);
         fx.runAllTests();
@@ -376,10 +384,10 @@ static void sec_misuse(vf::Ctx& c) {
             after_ran = g_after_ran;
             if (fx2.getFailureCount() != 0) c.violation("later-test-fails-after-misuse" + keytail, "the test following a reported misuse failed: " + std::string(fx2.getOutput().asCharString()).substr(0, 300));
         }
-        self_deadlocks = g_self_deadlocks;
+        self_deadlocks = g_self_deadlocks.load();
         if (g_owner != -1) { g_owner = -1; real_unlock(g_last_mutex.load()); }
         MemoryLeakWarningPlugin::turnOnDefaultNotThreadSafeNewDeleteOverloads();
-        remove_wrapper(); g_single_threaded = false;
+        remove_wrapper();
         if (failures != 1) c.violation("misuse-not-reported-once" + keytail, "the misuse produced " + std::to_string(failures) + " test failures: " + std::string(fx.getOutput().asCharString()).substr(0, 400));
     }
     if (!after_ran) c.violation("run-did-not-continue-after-misuse" + keytail, "the following test did not run");
